@@ -597,7 +597,7 @@ def router_endpoint_frame(w):
             clients0 = list(r.clients)
             pol0 = {id(k): dict((kk, dict(vv) if isinstance(vv, dict) else vv) for kk, vv in v.items()) if isinstance(v, dict) else v
                     for k, v in r.blob_routing.items()}
-            msgs = [_dev_msg(i + 1) for i in range(3)]
+            msgs = [_dev_msg(i + 1) for i in range(3)] + [_dev_msg("x" * 70000), _dev_msg(5)]
             for m in msgs:
                 try:
                     r.process_message(m, sender=cam)
